@@ -252,7 +252,8 @@ CLAIM = {
     "text": "MIR dominance rule on the configuration setters (range comparisons, evaluated symbolically as interval constraints over the "
             "comparison constants, must dominate the assignment) and provenance rule on every barrier initialisation in the operators. "
             "These make the configuration space finite and ≥ 1 and tie every barrier to the actual partition count for all plans; equality "
-            "of results across configurations is a value statement and is not decided.",
+            "of results across configurations is a value statement and is not decided. Plus a must-write rule for the LIMIT/OFFSET budget that all "
+            "partitions share (every path that skips or emits rows updates it), the one operator whose output depends on a cross-partition counter.",
     "note": "trusted: rustc MIR; barrier API list in rules/c03.py (DelayedPartitionCount::set, PartitionWakers::init_for_partitions, waker Vec::resize, remaining_inputs)",
     "technique": "static analysis: MIR dominance with constant-interval derivation + provenance (rustc_private driver)",
 }
